@@ -155,4 +155,49 @@ def crc32 (mem : List Byte) (length : Nat) (seed : BitVec 32) : Option (BitVec 3
     let bs ← loadBytes mem (4 * (length / 4)) (length % 4)
     pure (wordStep crc (padWord bs))
 
+/-! ### buffer + explicit length forms of the byte-loop routines
+
+`mem` = the bytes mapped at the pointer argument (it may be longer or shorter
+than the length argument), `len` = the C length parameter **with its C width**
+(`uint8_t` for `igris_crc8`, `igris_crc8_table`, `igris_mmc_crc7`; `uint16_t`
+for `igris_crc16`).  A read at an offset outside `mem` is `none`.  The driver
+runs these forms. -/
+
+/-- `while (len--) { crc = step(crc, *addr++); }` with a `w`-bit unsigned
+`len`: test, decrement (mod `2^w`), read `*addr`, advance.  `rest` = the bytes
+mapped from `addr` on (`[]` = `addr` is outside: the read faults).  `fuel`
+only bounds the recursion (`2^w` iterations at most; `none` when it runs out
+is never reached with `fuel > len`). -/
+def whileDec {w : Nat} {α : Type} (step : α → Byte → α) :
+    (fuel : Nat) → (len : BitVec w) → (rest : List Byte) → α → Option α
+  | 0, _, _, _ => none
+  | f + 1, len, rest, crc =>
+    if len = 0 then some crc else
+    match rest with
+    | [] => none
+    | b :: rest => whileDec step f (len - 1) rest (step crc b)
+
+/-- `igris_crc8_table(addr, uint8_t len, crc_init)` -/
+def crc8TableM (mem : List Byte) (len : BitVec 8) (seed : BitVec 8) : Option (BitVec 8) :=
+  whileDec tblStep 256 len mem seed
+
+/-- `igris_crc8(data, uint8_t len, crc_init)` -/
+def crc8M (mem : List Byte) (len : BitVec 8) (seed : BitVec 8) : Option (BitVec 8) :=
+  whileDec dowStep 256 len mem seed
+
+/-- `igris_crc16(data, uint16_t length, crc_init)` -/
+def crc16M (mem : List Byte) (len : BitVec 16) (seed : BitVec 16) : Option (BitVec 16) :=
+  whileDec crc16Step 65536 len mem seed
+
+/-- `for (unsigned i = 0; i < length; i++) { crc ^= message[i]; … }`:
+`n` = iterations left, `rest` = the bytes mapped from `message + i` on -/
+def forUp {α : Type} (step : α → Byte → α) : (n : Nat) → (rest : List Byte) → α → Option α
+  | 0, _, crc => some crc
+  | _ + 1, [], _ => none
+  | n + 1, b :: rest, crc => forUp step n rest (step crc b)
+
+/-- `igris_mmc_crc7(message, const uint8_t length)` -/
+def mmcCrc7M (mem : List Byte) (len : BitVec 8) : Option (BitVec 8) :=
+  (forUp mmcStep len.toNat mem (0#8 : BitVec 8)).map fun (c : BitVec 8) => c >>> 1
+
 end Igris.C17
